@@ -65,7 +65,7 @@ def kernel_siblings(ctx, facts_by_cfg):
             ctx.violation(R, 'slots:%s' % kern, 'reference kernel %s writes %d 16-byte slots, expected %d' % (dags['ssse3'][1], len(ref), nslots), fn=dags['ssse3'][1], cfg='x86_64')
         for eng, (mem, fnp, cfg) in sorted(dags.items()):
             if eng == 'ssse3':
-                ctx.ok(R, 'ssse3:%s' % kern, {'slots_written': len(mem), 'sample': repr(sorted(mem.items(), key=repr)[0])[:400]})
+                ctx.ok(R, 'ssse3:%s' % kern, {'slots_written': len(mem), 'sample': repr(sorted(mem.items(), key=repr)[:1])[:400]})
                 continue
             if mem == ref:
                 ctx.ok(R, '%s~ssse3:%s' % (eng, kern), {'slots_compared': len(mem)})
@@ -775,6 +775,24 @@ def fold(c):
     return c
 
 
+ALIGNED = {'_mm_load_si128': 16, '_mm_store_si128': 16, '_mm256_load_si256': 32, '_mm256_store_si256': 32, '_mm256_stream_si256': 32, '_mm_stream_si128': 16}
+ALIGN_OF = {'u8': 1, 'i8': 1, 'u16': 2, 'i16': 2, 'u32': 4, 'i32': 4, 'u64': 8, 'i64': 8, 'u128': 16, 'i128': 16,
+            'std::arch::x86_64::__m128i': 16, 'std::arch::x86_64::__m256i': 32, 'std::arch::x86::__m128i': 16, 'std::arch::x86::__m256i': 32}
+
+
+def base_align(descr):
+    """alignment of the object a traced pointer was derived from (the descr starts with its type)"""
+    m = re.match(r'^ptr::from_ref::<(.*?)>', descr)
+    ty = m.group(1) if m else descr.split('.as_ptr()')[0].split('.split_at(')[0]
+    ty = ty.strip()
+    while True:
+        m = re.match(r'^\[(.*); \d+\]$', ty)
+        if not m:
+            break
+        ty = m.group(1).strip()
+    return ALIGN_OF.get(ty)
+
+
 def bounded_access(ctx, facts, cfg):
     R = 'C03.b-bounded-simd-access'
     counts = {}
@@ -810,6 +828,13 @@ def bounded_access(ctx, facts, cfg):
                               'unbounded SIMD access: pointer operand of %s in %s cannot be bounded (%s)' % (intr, p, res[1]), site=t['line'], fn=p, cfg=cfg)
                 continue
             base_sz, off, descr = res
+            need = ALIGNED.get(intr)
+            if need:
+                ba = base_align(descr)
+                if ba is None or ba < need or off % need:
+                    ctx.violation(R, 'misaligned:%s' % intr, '%s in %s requires %d-byte alignment but its pointer is derived from %s (+%d), which is only %s-byte aligned: undefined behaviour / fault on memory that is not over-aligned by the allocator'
+                                  % (intr, p, need, descr, off, ba if ba is not None else 'an unknown number of'), site=t['line'], fn=p, cfg=cfg)
+                    continue
             if off + acc <= base_sz and off >= 0:
                 ctx.ok(R, ident + '@' + cfg, {'ptr': descr, 'bytes': '%d..%d of %d' % (off, off + acc, base_sz)} if counts[(eng, 'store' if is_store else 'load')] <= 2 else None)
             else:
